@@ -14,7 +14,7 @@ ones this reading was written for.
 |---|---|
 | `build_space_tolerant_regex`: `re.sub(r"\s+", escaped_space, linespec)` with `escaped_space = (backslash + backslash + "s+").translate(encoding)`, `backslash = "\x5c"` | `ignore_ws`: white-space runs of the pattern become the two-backslash text `\\s+` (the replacement template of `re.sub`, i.e. `\s+` in the result) |
 | `escape_linespec`: `re.sub(r"\\(\s)", r"\1", re.escape(linespec))` | `escape_chars`: literal text, blanks left alone |
-| `CiscoConfParse._find_line_OBJ`: `re.compile(linespec)` / `re.compile("^(?:%s)$" % linespec)`, then `.search` | `exactmatch` = `fullmatch` on a line without line breaks |
+| `CiscoConfParse._find_line_OBJ`: `re.compile(linespec)` / `re.compile("^(?:%s)$" % linespec)` for a `str`, `re.compile("^(?:%s)$" % linespec.pattern, linespec.flags)` for a compiled `re.Pattern` (the third entry of the scan set, flags `<dynamic>`; added by `fix: find_objects(compiled pattern, exactmatch=True) anchors the expression text, not the repr of the Pattern`, finding FC04e), then `.search` | `exactmatch` = `fullmatch` on a line without line breaks, under the flags of a compiled expression |
 
 `<dynamic>` marks a pattern that is not a constant of the source (the caller's regex); `%-template` marks the constant
 frame of a `"…" % x` expression.  `rx…` are *scan sets* (`harness/rxscan.py`, `scan_closure`): for the named entry point and every helper of the same
@@ -49,6 +49,7 @@ theorem regexes_as_modelled :
     Gen.rxFindLineObj =
       [("re.compile", "<dynamic>", ""),
        ("re.compile", "^(?:%s)$", "%-template"),
+       ("re.compile", "^(?:%s)$", "%-template <dynamic>"),
        ("re.search", "<dynamic>", "")] := by
   refine ⟨?regexes_as_modelled__rxSpaceTolerant, ?regexes_as_modelled__rxEscapeLinespec,
     ?regexes_as_modelled__rxFindLineObj⟩
